@@ -332,6 +332,12 @@ def rank_script(w, plans):
                     b = [0] + list(np.cumsum(pl["part"]))
                     sl = build(pl["entry"], int(b[r]), int(b[r + 1]), comm)
                     sl.save(base, overwrite=pl["overwrite"])
+                    if pl.get("then_local_load") and pl["expect"] == "ok":
+                        c1 = ift.ResidualSampleList if pl["entry"]["kind"] == "residual" else ift.SampleList
+                        sl1 = c1.load(base)            # comm=None, by this task alone, right after save() returned
+                        out.append(("ok", {"local_load": [from_field(sl1.local_item(i)) for i in range(sl1.n_local_samples)]}))
+                        comm_barrier(comm)
+                        continue
                     out.append(("ok", None))
                     continue
                 cls = ift.ResidualSampleList if pl["cls"] == "residual" else ift.SampleList
@@ -340,6 +346,12 @@ def rank_script(w, plans):
                        "local": [from_field(sl.local_item(i)) for i in range(sl.n_local_samples)]}
                 if pl["op"] == "load":
                     res["iterator"] = [from_field(s) for s in sl.iterator()]
+                    if pl.get("also_local"):
+                        # once a collective save/load has returned on a task the list is complete on disk:
+                        # a non-collective load by that task alone must see all of it
+                        sl1 = cls.load(base)
+                        res["local_load"] = [from_field(sl1.local_item(i)) for i in range(sl1.n_local_samples)]
+                        comm_barrier(comm)    # a sane script synchronises before anybody writes again
                 elif pl["op"] == "stats":
                     op = nifty_op(pl["opname"], sl_ftype(sl), doms)
                     res["average"] = from_field(sl.average(op))
@@ -376,6 +388,11 @@ def rank_script(w, plans):
     return run
 
 
+def comm_barrier(comm):
+    if comm is not None:
+        comm.Barrier()
+
+
 def sl_ftype(sl):
     import nifty.cl as ift
     return "multi" if isinstance(sl.domain, ift.MultiDomain) else "field"
@@ -408,11 +425,19 @@ def check_phase(w, phase, plans, out):
         if tag == "raised":
             raise Violation({"oracle": "unexpected-error", "op": what, "exc": outs[0][1]},
                             f"sub-op {i} {what}: {outs[0][1]}: {outs[0][2]}")
-        if what == "save":
-            continue
         ent = pl["entry"]
         exp = expected_samples(ent)
         m = len(exp)
+        for r in range(n):
+            res = outs[r][1]
+            if isinstance(res, dict) and "local_load" in res:
+                w.probes["non_collective_loads_checked"] = w.probes.get("non_collective_loads_checked", 0) + 1
+                if len(res["local_load"]) != m or not all(same(a, b) for a, b in zip(res["local_load"], exp)):
+                    raise Violation({"oracle": "non-collective-load-after-collective-op-differs", "op": what},
+                                    f"rank {r}/{n}: a load by this task alone right after {what}() returned does not "
+                                    f"see the list that was saved")
+        if what == "save":
+            continue
         for r in range(n):
             res = outs[r][1]
             lo, hi = share_range(m, n, r)
@@ -538,9 +563,11 @@ def strategies():
         "ftype": st.sampled_from(["field", "multi"]), "m": st.integers(1, 5),
         "cuts": st.lists(st.integers(0, 5), min_size=0, max_size=3), "overwrite": st.booleans(),
         "negs": st.lists(st.integers(0, 1), min_size=0, max_size=5), "sub": st.booleans(),
-        "big": st.sampled_from([False, False, True]), "master_only": st.sampled_from([False, False, True])})
+        "big": st.sampled_from([False, False, True]), "master_only": st.sampled_from([False, False, True]),
+        "then_local_load": st.sampled_from([False, True])})
     save_ow = save.map(lambda d: dict(d, overwrite=True))
-    load = st.fixed_dictionaries({"op": st.just("load"), "base": base, "cls": st.sampled_from(["plain", "residual"])})
+    load = st.fixed_dictionaries({"op": st.just("load"), "base": base, "cls": st.sampled_from(["plain", "residual"]),
+                                  "also_local": st.booleans()})
     stats = st.fixed_dictionaries({"op": st.just("stats"), "base": base, "opname": opn})
     hdf5 = st.fixed_dictionaries({"op": st.just("hdf5"), "base": base, "opname": opn,
                                   "h5": st.sampled_from(H5NAMES), "samples": st.booleans(), "mean": st.booleans(),
